@@ -34,6 +34,21 @@ theorem used_grows (cfg : Cfg) (files : List (List Stmt)) (fuel f : Nat) (st st'
   have := readFile_inv cfg files fuel f st lines st' h
   exact ⟨this.2.2, this.2.1⟩
 
+/-- no file is opened twice anywhere in the include tree - not by the file that includes it, not by a file it
+    includes itself, not by a sibling (a "diamond"): the record of opened files is one for the whole tree, and an
+    accepted read leaves it without a repetition -/
+theorem no_file_opened_twice (cfg : Cfg) (files : List (List Stmt)) (fuel f : Nat) (st st' : ReadSt)
+    (lines : List Line) (h : readFile cfg files fuel f st = .ok (lines, st')) (hn : st.used.Nodup) :
+    st'.used.Nodup :=
+  readFile_used_nodup cfg files fuel f st lines st' h hn
+
+/-- … in particular for a whole program, which starts with nothing opened -/
+theorem program_opens_each_file_once (cfg : Cfg) (files : List (List Stmt)) (fuel : Nat) (st st' : ReadSt)
+    (lines : List Line) (h0 : st.used = []) (h : readFile cfg files fuel 0 st = .ok (lines, st')) :
+    st'.used.Nodup ∧ st'.used.contains 0 = true := by
+  refine ⟨readFile_used_nodup cfg files fuel 0 st lines st' h (by rw [h0]; exact List.nodup_nil), ?_⟩
+  exact (readFile_inv cfg files fuel 0 st lines st' h).2.2
+
 /-- the includer's current local-label region, selected zone, mute depth and open conditional
     chains continue unchanged after a selected `#include` … -/
 theorem includer_state_continues (cfg : Cfg) (files : List (List Stmt)) (fuel f g : Nat) (rest : List Stmt)
